@@ -5,6 +5,7 @@ mod opseq;
 mod pauli;
 mod lattice;
 mod stateops;
+mod measure;
 mod util;
 
 use serde_json::{json, Value};
@@ -20,6 +21,7 @@ fn dispatch(case: &Value) -> Value {
         "trotter" => pauli::run_trotter(case),
         "lattice" => lattice::run_lattice(case),
         "state" => stateops::run_state(case),
+        "measure" => measure::run_measure(case),
         "sched" => sched(case),
         other => json!({"r": "harness_error", "e": format!("unknown op {}", other)}),
     }
